@@ -402,6 +402,15 @@ def apply(an, st, call, bb):
     okf = False
     if dk == 'index-call' and _range_index_ok(an, st, call):
       okf = True
+    if dk in ('vec-api', 'slice-api') and last in ('remove', 'split_at', 'split_at_mut', 'swap_remove') and len(call.args) == 2:
+      rk, _ = _referent(an, st, call.args[0])
+      ix = an.read(st, call.args[1])
+      lv = st.m.get((rk[0], rk[1] + ('#len',))) if rk is not None else None
+      if is_int(ix) and is_int(lv) and ix[1] >= 0:
+        if last.startswith('split_at') and ix[2] <= lv[1]:
+          okf = True
+        if last in ('remove', 'swap_remove') and ix[2] < lv[1]:
+          okf = True
     if (dk == 'iter-api' and last == 'step_by' or dk == 'slice-api' and last in ('chunks', 'chunks_exact', 'windows', 'rchunks')) and len(call.args) == 2:
       sz = an.read(st, call.args[1])
       if is_int(sz) and sz[1] >= 1:
@@ -564,6 +573,17 @@ def apply(an, st, call, bb):
         cur = iv(0, ISIZE_MAX)
         st.m[lk] = cur
       return {'sub': {(): cur}, 'pure': True, 'copyof': lk}
+  if last == 'is_empty' and call.args and re.search(r'(slice::<impl \[T\]>|vec::Vec|str::<impl str>|string::String|VecDeque)::is_empty$', name):
+    k, _ = _referent(an, st, call.args[0])
+    if k is not None:
+      lk = (k[0], k[1] + ('#len',))
+      if st.m.get(lk) is None:
+        st.m[lk] = iv(0, ISIZE_MAX)
+      cur = st.m[lk]
+      res = {'sub': {(): iv(0, 1)}, 'pure': True, 'pred': ('cmp', 'Eq', ('key', lk, 'usize'), ('val', iv(0, 0)), False)}
+      if cur[1] > 0:
+        res['sub'] = {(): iv(0, 0)}
+      return res
   if re.search(r'(slice::<impl \[T\]>|vec::Vec|str::<impl str>|string::String|VecDeque|collections::\w+::\w+)::len$', name) or re.search(r'ExactSizeIterator(>|)::len$', name):
     return {'sub': {(): iv(0, ISIZE_MAX)}, 'pure': True}
   if last in ('is_empty', 'is_some', 'is_none', 'is_ok', 'is_err', 'contains', 'contains_key', 'starts_with', 'ends_with', 'is_ascii_digit', 'is_char_boundary') and dest_ty == 'bool':
